@@ -64,7 +64,7 @@ def main(tier):
     T = 90 if tier == 'quick' else 600
     res = chx.run_module('reader', per_condition_timeout=T)
     from checks import C11
-    chx.report(rep, res, TITLES, replays={'_vector_raw': lambda kw: REPLAY_VECTOR % (kw,), '_bounds_merge': lambda kw: C11.REPLAY_BOUNDS % (kw,)},
+    chx.report(rep, res, TITLES, replays=dict(readerside.READ_REPLAYS, _vector_raw=lambda kw: REPLAY_VECTOR % (kw,), _bounds_merge=lambda kw: C11.REPLAY_BOUNDS % (kw,)),
                sigs={'_vector_raw': 'C08.read_vector_raw.length1'})
     readerside.c08_part(rep, st, tier)
     return rep.finish()
